@@ -20,7 +20,7 @@ from collada import polylist
 from collada import polygons
 from collada import primitive
 from collada.common import DaeObject, E, tag
-from collada.common import DaeIncompleteError, DaeUnsupportedError, DaeBrokenRefError
+from collada.common import DaeIncompleteError, DaeUnsupportedError
 from collada.util import _syncChildren
 
 
@@ -190,9 +190,7 @@ class Geometry(DaeObject):
                 inputsource = inputnode.get('source')
                 if not semantic or not inputsource or not inputsource.startswith('#'):
                     raise DaeIncompleteError('Bad input definition inside vertices')
-                if inputsource[1:] not in sourcebyid:
-                    raise DaeBrokenRefError('Source %s of the vertices input not found' % inputsource)
-                inputnodes[semantic] = sourcebyid[inputsource[1:]]
+                inputnodes[semantic] = sourcebyid.get(inputsource[1:])
             if (not verticesnode.get('id') or len(inputnodes) == 0 or
                     'POSITION' not in inputnodes):
                 raise DaeIncompleteError('Bad vertices definition in mesh')
